@@ -456,7 +456,10 @@ def run(ctx):
         tag = "" if cname == "MAX" else "[%s]" % cname
         ev = prog.fn(EI)
         lb = prog.fn(LB)
-        pi = prog.fn(PI)
+        # perform_include is read through private helpers a piece of it may have been moved into (`include_not_found(..)`);
+        # callees whose names the rules mention stay calls
+        from .. import inline as _inl
+        pi = _inl.view(prog, prog.fn(PI))
         # ---- I10: an import exposes *exactly* the imported template's top-level names: in the handler that builds the
         # module object every local of the frame is inserted - no path through the loop over the locals skips the insert
         sw10 = arms.enum_switches(prog, ev, "minijinja::compiler::instructions::Instruction")
